@@ -1,6 +1,6 @@
 /-
   Proofs/SolverCompleteLin.lean — GF(2) linear algebra for the completeness argument of the time-reversed solver (C02):
-  linear independence of the generators (`Indep`) and the rank of the generator matrix restricted to the columns `0..k`
+  linear independence of the generators (`LinIndep`) and the rank of the generator matrix restricted to the columns `0..k`
   (`cutRank`) are invariants of the signed group; gates keep independence; gates acting right of a cut keep the cut rank;
   the link with the height function; the starting tableau `target ⊗ |0…0⟩` of the solver and its emitter budget.
 -/
@@ -131,18 +131,18 @@ theorem gateLin_ker (n : Nat) (G : Gate) (hG : G.WF n) : LinearMap.ker (gateLin 
 namespace STab
 
 /-- the generators are linearly independent over GF(2) (a valid stabilizer tableau) -/
-def Indep (t : STab) : Prop := LinearIndependent (ZMod 2) (fun i : Fin t.n => (t.row i).vec t.n)
+def LinIndep (t : STab) : Prop := LinearIndependent (ZMod 2) (fun i : Fin t.n => (t.row i).vec t.n)
 
 /-- rank of the generator matrix restricted to the columns `0..k` (x- and z-parts) -/
 noncomputable def cutRank (t : STab) (k : Nat) : Nat := Module.finrank (ZMod 2) ↥(t.gspace.map (cutLin t.n k))
 
-theorem indep_iff_finrank (t : STab) : t.Indep ↔ finrank (ZMod 2) ↥t.gspace = t.n := by
-  unfold Indep
+theorem indep_iff_finrank (t : STab) : t.LinIndep ↔ finrank (ZMod 2) ↥t.gspace = t.n := by
+  unfold LinIndep
   rw [linearIndependent_iff_card_eq_finrank_span, Fintype.card_fin]
   exact eq_comm
 
 /-- (1) same signed group ⇒ still independent -/
-theorem indep_of_spanEq (t t' : STab) (h : SpanEq t t') (hi : t.Indep) : t'.Indep := by
+theorem indep_of_spanEq (t t' : STab) (h : SpanEq t t') (hi : t.LinIndep) : t'.LinIndep := by
   obtain ⟨hn, h1, h2⟩ := h
   obtain ⟨n, row⟩ := t
   obtain ⟨n', row'⟩ := t'
@@ -158,7 +158,7 @@ theorem norm_vec (t : STab) (i : Nat) (hi : i < t.n) : (t.norm.row i).vec t.n = 
   PRow.vec_congr _ _ _ (norm_row t i hi).1
 
 /-- (2) a well-formed gate keeps independence -/
-theorem indep_gate (t : STab) (G : Gate) (hG : G.WF t.n) (hi : t.Indep) : ((t.applyGate G).norm).Indep := by
+theorem indep_gate (t : STab) (G : Gate) (hG : G.WF t.n) (hi : t.LinIndep) : ((t.applyGate G).norm).LinIndep := by
   have h1 := LinearIndependent.map' hi (gateLin t.n G hG) (gateLin_ker t.n G hG)
   have e : (fun i : Fin ((t.applyGate G).norm).n => (((t.applyGate G).norm).row i).vec ((t.applyGate G).norm).n)
       = (gateLin t.n G hG) ∘ (fun i : Fin t.n => (t.row i).vec t.n) := by
@@ -166,7 +166,7 @@ theorem indep_gate (t : STab) (G : Gate) (hG : G.WF t.n) (hi : t.Indep) : ((t.ap
     show (((t.applyGate G).norm).row i).vec t.n = gateLin t.n G hG ((t.row i).vec t.n)
     rw [← gateLin_apply]
     exact norm_vec (t.applyGate G) i.val i.isLt
-  unfold Indep
+  unfold LinIndep
   rw [e]
   exact h1
 
@@ -259,7 +259,7 @@ theorem echelon_count_right (t : STab) (piv : Nat → Nat) (he : Echelon t piv) 
   omega
 
 /-- (7) `height_func_list` returns on an independent tableau, with a list of length `n` -/
-theorem heightFuncList_ok_of_indep (t : STab) (hi : t.Indep) : ∃ l, t.heightFuncList = .ok l ∧ l.length = t.n := by
+theorem heightFuncList_ok_of_indep (t : STab) (hi : t.LinIndep) : ∃ l, t.heightFuncList = .ok l ∧ l.length = t.n := by
   obtain ⟨l, h⟩ := heightFuncList_total t hi
   refine ⟨l, h, ?_⟩
   rw [heightFuncList_eq_finrank t l h, List.length_map, List.length_range]
@@ -287,7 +287,7 @@ theorem extLin_ker (n m : Nat) : LinearMap.ker (extLin n m) = ⊥ := by
   rw [extLin_apply, extLin_apply, dif_pos j.isLt, dif_pos j.isLt] at this
   exact this
 
-theorem indep_insertQubit (t : STab) (hi : t.Indep) : (t.insertQubit t.n).Indep := by
+theorem indep_insertQubit (t : STab) (hi : t.LinIndep) : (t.insertQubit t.n).LinIndep := by
   show LinearIndependent (ZMod 2) (fun i : Fin (t.n + 1) => ((t.insertQubit t.n).row i).vec (t.n + 1))
   rw [linearIndependent_finSucc']
   have hinit : Fin.init (fun i : Fin (t.n + 1) => ((t.insertQubit t.n).row i).vec (t.n + 1))
@@ -327,7 +327,7 @@ theorem indep_insertQubit (t : STab) (hi : t.Indep) : (t.insertQubit t.n).Indep 
   decide
 
 /-- (8) the starting tableau of the solver is independent -/
-theorem indep_withEmitters (target : STab) (hi : target.Indep) (ne : Nat) : (Solver.withEmitters target ne).Indep := by
+theorem indep_withEmitters (target : STab) (hi : target.LinIndep) (ne : Nat) : (Solver.withEmitters target ne).LinIndep := by
   induction ne with
   | zero => exact hi
   | succ k ih =>
@@ -445,7 +445,7 @@ theorem cutRank_withEmitters (target : STab) (ne : Nat) (h : Solver.determineNEm
   omega
 
 /-- (10) `determine_n_emitters` returns on an independent non-empty target -/
-theorem determineNEmitters_ok (target : STab) (hi : target.Indep) (hn : 0 < target.n) :
+theorem determineNEmitters_ok (target : STab) (hi : target.LinIndep) (hn : 0 < target.n) :
     ∃ ne, Solver.determineNEmitters target = .ok ne := by
   obtain ⟨t1, brs, piv, hr, he⟩ := rref_ok_of_indep target hi
   have hn1 : t1.n = target.n := (rref_ops _ t1 brs hr).n_eq
